@@ -7,7 +7,7 @@ mkdir -p bin evidence replays
 go build -o bin/instr ./instr
 S=$(mktemp -d "${TMPDIR:-/tmp}/verif-setup.XXXXXX")
 trap 'rm -rf "$S"' EXIT
-bin/instr -out "$S/ins" -extra "/repo/buffer/hybridbuffer/zz_verif_export.go=$PWD/hooks/hybridbuffer_export.go,/repo/output/fluentdforward/zz_verif_export.go=$PWD/hooks/fluentdforward_limits_export.go" \
+bin/instr -out "$S/ins" -extra "/repo/buffer/hybridbuffer/zz_verif_export.go=$PWD/hooks/hybridbuffer_export.go,/repo/output/fluentdforward/zz_verif_export.go=$PWD/hooks/fluentdforward_limits_export.go,/repo/base/bconfig/zz_verif_export.go=$PWD/hooks/bconfig_export.go" \
   -vfs "github.com/relex/slog-agent/util,github.com/relex/slog-agent/buffer/hybridbuffer"
 # every harness registered in ./check is compiled once (model-checking harnesses against the instrumented tree)
 for h in $(grep -o 'build_mc [a-z_0-9]*' check | awk '{print $2}' | sort -u); do
